@@ -1029,7 +1029,8 @@ def write_touchstone(gt, version=1, unit="GHZ", coord="MA", ptype=None,
 
 
 def write_npd(gt, specs, blocks, header_order=None, numstyle="r", decor=None,
-              with_key=False, extra_header=True, z0_style="plain"):
+              with_key=False, extra_header=True, z0_style="plain",
+              omit_default_z0=False):
     """gt: dict(ports, freqs, z0 (list of complex) or fz0 [F][ports]);
     specs: list of spec strings as they are to appear; blocks[F] -> list of
     lists of real fields (one list per spec)"""
@@ -1049,7 +1050,10 @@ def write_npd(gt, specs, blocks, header_order=None, numstyle="r", decor=None,
             z = complex(z)
             toks.append(fmt_num(z.real, numstyle))
             toks.append(fmt_num(z.imag, numstyle, plus=True) + "j")
-        hdr.append(("z0", "#:z0 " + d.join(toks)))
+        if not (omit_default_z0 and
+                all(complex(z) == 50.0 for z in gt["z0"])):
+            # (the line is optional: without it every port is 50 ohms)
+            hdr.append(("z0", "#:z0 " + d.join(toks)))
     if extra_header:
         hdr.append(("fprecision", "#:fprecision 17"))
         hdr.append(("dprecision", "#:dprecision 17"))
